@@ -11,7 +11,7 @@ def bounds(tier):
         return {'domain': '(A,B,C) sizes (2,2,2)', 'deviations': 1, 'noise_answers': QUICK_ALTS, 'datasets': ['conc6', 'spread20'],
                 'eps_delta': [[1.0, 1e-6], [10.0, 1e-3]], 'aim_default_rounds': 'default execution only'}
     return {'domain': '(A,B,C) sizes (2,3,2)', 'deviations': 2, 'noise_answers': FULL_ALTS, 'datasets': ['conc6', 'spread20', 'single'],
-            'eps_delta': [[1.0, 1e-6], [0.1, 1e-9], [10.0, 1e-3]], 'caps': 'per (spec, dataset): 150 (AIM, MWEM) / 120 (MST, adaptive grid) base executions'}
+            'eps_delta': [[1.0, 1e-6], [0.1, 1e-9], [10.0, 1e-3]], 'caps': 'per (spec, dataset): 150 (AIM, MWEM) / 120 (MST, adaptive grid) base executions; 40 for the 4x4x4 AIM spec, 10 for the 7-attribute adaptive grid'}
 
 
 def specs(tier):
@@ -78,7 +78,7 @@ def jobs(tier, seed):
                 cap = 60
             if 'sizes' in spec:
                 bound = 0 if tier == 'quick' else 1
-                cap = 40
+                cap = 40 if len(spec['sizes']) < 7 else 10    # 7 attributes: ~150 lock-step replays per base execution
             out.append({'spec': {k: v for k, v in spec.items() if k not in ('sizes', 'ds')}, 'ds': ds, 'sizes': spec.get('sizes', sizes), 'bound': bound, 'alts': QUICK_ALTS if tier == 'quick' else FULL_ALTS,
                         'seed': seed, 'cap': cap})
     for rounds in ([1, 2, 3, 4, 6] if tier == 'quick' else [1, 2, 3, 4, 6, 8]):
